@@ -48,7 +48,10 @@ def make_case(prop: str, seed: int, idx: int, tier: str) -> dict:
         ops = []
         for ch in word:
             if ch == "E":
-                ops.append({"op": "first_accepted", "tries": [gen.gen_op(rng, cfg, rng.choice(EDIT_KINDS)) for _ in range(4)] + [{"op": "update_attrs", "n": ["any", rng.randrange(64)], "key": "score", "val": round(rng.random(), 3)}]})
+                ops.append({"op": "first_accepted", "tries": [gen.gen_op(rng, cfg, rng.choice(EDIT_KINDS)) for _ in range(4)] + [
+                    {"op": "add_node", "t": rng.randrange(12), "track": ["fresh", 0], "id": ["fresh", 0], "force": False, "pix": {"o": [rng.random() for _ in range(3)], "ext": [1, 1, 1], "pat": "single"}, "pos": [rng.random() for _ in range(3)]},
+                    {"op": "update_attrs", "n": ["any", rng.randrange(64)], "key": "score", "val": round(rng.random(), 3)},
+                ]})
             else:
                 ops.append({"op": "undo" if ch == "U" else "redo"})
         cfg["steps"] = len(ops)
